@@ -61,6 +61,10 @@ static struct cds_lfht_node *lf_xchg_next(struct cds_lfht_node **addr, struct cd
 	__CPROVER_loop_invariant(CANONP(iter_prev) && G_b <= POSP && POSP < G_n && POSP != G_unl)		\
 	__CPROVER_loop_invariant(iter == LF_TAG(LF_AT(LF_SUCC(POSP)), G_fl[POSP]) && !(G_fl[POSP] & 5) && G_fl[POSP] <= 7)	\
 	__CPROVER_loop_invariant(G_pool[POSP].reverse_hash <= node->reverse_hash)				\
+	/* the walk cannot get past the still linked victim */							\
+	__CPROVER_loop_invariant(G_unl == G_v || POSP < G_v)							\
+	/* wf fact at the cursor: its successor does not exceed the victim's reverse hash while before it */	\
+	__CPROVER_loop_invariant(LF_SUCC(POSP) >= G_n || G_w2 <= LF_SUCC(POSP) || G_pool[LF_SUCC(POSP)].reverse_hash <= G_pool[G_w2].reverse_hash)	\
 	/* no linked REMOVED node has been passed */								\
 	__CPROVER_loop_invariant(!(G_b < G_w && G_w <= POSP) || !(G_fl[G_w] & 1) || G_w == G_unl)		\
 	__CPROVER_decreases(G_n - POSP)
@@ -81,8 +85,10 @@ struct cds_lfht_node *G_wv;
 static void mk_del(void)
 {
 	lf_mk();
-	G_v = G_s; G_b = nondet_ulong();
+	G_v = G_s; G_b = nondet_ulong(); G_w2 = G_v;
 	VERIF_REQUIRE(G_b < G_v && G_v < G_n);
+	/* transitive sortedness, instance (successor of the bucket, victim) */
+	VERIF_REQUIRE(G_b + 1 >= G_v || G_pool[G_b + 1].reverse_hash <= G_pool[G_v].reverse_hash);
 	/* contract of lookup_bucket: the victim's bucket precedes it on the chain */
 	VERIF_REQUIRE(G_pool[G_b].reverse_hash <= G_pool[G_v].reverse_hash);
 	G_ht.size = nondet_ulong(); VERIF_REQUIRE(G_ht.size >= 1);
@@ -131,5 +137,9 @@ void h_gc(void)
 	VERIF_ASSERT(G_cas_count == 1 && G_unl == G_v, "gc_bucket: exactly one CAS, which unlinks the REMOVED node: afterwards no REMOVED node with a reverse hash <= node's is reachable from the bucket");
 	VERIF_ASSERT(G_pool[G_v - 1].next == LF_TAG(LF_AT(G_v + 1), G_fl[G_v - 1] & 2), "gc_bucket: predecessor links past the removed node and keeps its BUCKET bit");
 	VERIF_ASSERT(G_w == G_v - 1 || G_pool[G_w].next == G_wv, "gc_bucket: no other chain node modified (the removed node's own next word is left intact)");
+#ifdef LF_SMALL
+	VERIF_COVER(G_v > G_b + 1 && G_v + 1 < G_n); VERIF_COVER(G_v == G_b + 1); VERIF_COVER(G_v + 1 == G_n);
+#else
 	VERIF_COVER(G_v > G_b + 3 && G_v + 2 < G_n); VERIF_COVER(G_v == G_b + 1); VERIF_COVER(G_v + 1 == G_n);
+#endif
 }
